@@ -3,6 +3,7 @@ package rl
 import (
 	"context"
 	"fmt"
+	"os"
 	"strings"
 	"time"
 
@@ -14,6 +15,7 @@ import (
 
 	"kgsim/sim"
 	"kgsim/simapi"
+	"kgsim/simnet"
 )
 
 func mifQuota(c *proxyv1alpha1.RateLimitCondition, schema string) (int32, bool) {
@@ -51,6 +53,11 @@ func RunC19H(r *sim.Run) {
 		started[rp.Name] = w.Now()
 	}
 	w.TrackLeadership()
+	if os.Getenv("KG_RPCLOG") != "" { // debugging aid: network messages in the trace
+		w.Net.OnServed = func(m *simnet.Msg) {
+			r.Logf("  rpc %s->%s %s #%d -> %d at %v", m.From, m.To, m.Kind, m.Seq, m.Status, w.Now())
+		}
+	}
 	ups := []string{"up-a", "up-b", "cluster-3.example.com", "x", "up-e"}[:t.Range(2, 5)]
 	for _, u := range ups {
 		w.PutCluster(clusterObj(u, []*schemaCfg{{name: "mif", limit: 100}}))
